@@ -32,12 +32,17 @@ CapOK(e) ==
   /\ IF BLess(e.cap.l, e.count.l) THEN e.rc = E_MEMORY_BOUNDS ELSE e.rc = 0 /\ e.w.l = e.count.l
   /\ BLeq(e.w.l, e.cap.l)
 
+\* conformance with the iterator model H3PolyIter (not promised by the API): the hierarchical fill emits cells in increasing
+\* index order in every mode
+OrderedOK(e) == \A k \in 2..5 : \A i \in 1..(Len(e.f[k].out) - 1) : WordLess(e.f[k].out[i], e.f[k].out[i + 1])
+
 FlagsOK(e) == e.rmax = E_OPTION_INVALID /\ e.rc = E_OPTION_INVALID /\ e.w = 0
 
 Ev == Tr[l]
 \* (the IF forces TLC to evaluate the judgement as a plain expression instead of unfolding its quantifiers as an action)
 EvOK(e) ==
   CASE e.e = "polyfill"  -> /\ (WHICH \in {"C07", "ALL"} => C07OK(e))
+                            /\ (WHICH = "ORDER" => OrderedOK(e))
                             /\ (WHICH = "C07L" => CenterFillOK(e, 1))          \* the two algorithms judged separately
                             /\ (WHICH = "C07E" => CenterFillOK(e, 2))
                             /\ (WHICH \in {"C15", "ALL"} => C15OK(e))
